@@ -14,8 +14,8 @@ package main
 //	     "lo"  the low bound of `x[lo:]`   (a high bound must be absent),   "hi"  the high bound of `x[:hi]` (no low bound),
 //	     "lo:" / ":hi" the low / high bound of `x[lo:hi]` (both present). Three-index slices are refused.
 //	{Kind: "loopcond", Name, Func, Anchor: <text the condition contains>, Occur: n}
-//	     the condition of a `for` statement (as `cond` does for `if`): the loop itself may be outside the subset
-//	     (`for cond {}`), its condition is an expression like any other.
+//	     the condition of a `for cond {}` statement (no init, no post; as `cond` does for `if`): the loop itself is outside
+//	     the subset, its condition is an expression like any other. Anchor "" = any; Occur counts these loops in source order.
 
 import (
 	"fmt"
@@ -42,7 +42,7 @@ func (u *unitCtx) exprItem(it Item) {
 				hits = append(hits, x)
 			}
 		case *ast.ForStmt:
-			if it.Kind == "loopcond" && x.Cond != nil && strings.Contains(exprText(u.l.fset, x.Cond), it.Anchor) {
+			if it.Kind == "loopcond" && x.Cond != nil && x.Init == nil && x.Post == nil && strings.Contains(exprText(u.l.fset, x.Cond), it.Anchor) {
 				hits = append(hits, x)
 			}
 		}
